@@ -312,8 +312,16 @@ def _check(case, chain):
             # checksum
             for i in range(20, 24):
                 for x in (F[i] ^ 1, F[i] ^ 0x80, (F[i] + 1) % 256):
-                    expect_reject(parse_stream(io.BytesIO(F[:i] + bytes([x]) + F[i + 1:] + tail)), 'wrong-checksum')
+                    g = io.BytesIO(F[:i] + bytes([x]) + F[i + 1:] + tail)
+                    expect_reject(parse_stream(g), 'wrong-checksum')
                     evals += 1
+                    if tail and i == 20 and g.tell() == len(F):
+                        # the refused frame was consumed whole: the frame behind it parses as if nothing had happened
+                        r2 = parse_stream(g)
+                        m2_, F2_ = frames[1]
+                        if r2[0] != 'msg' or type(r2[1]) is not CLASSES[m2_['type']] or g.tell() != len(F) + len(F2_) or \
+                                libx.call('fields-after-refusal', fields_of, r2[1])[1] != fields_expected(m2_):
+                            raise Violation('stream/after-refused-frame', 'the frame following a frame with a bad checksum was not parsed correctly')
             # payload
             for p in case.get('positions', []):
                 if L:
